@@ -299,4 +299,28 @@ theorem u8x4_avx2_four_rows_masks :
 theorem u8x4_avx2_four_rows_source_as_modelled : Fir.Gen.u8x4_avx2_four_rows_skeleton =
     "_mm256_setzero_si256 _mm256_set1_epi32 chunks_exact remainder simd_utils::mm256_load_and_clone_i16x2 simd_utils::mm256_load_and_clone_i16x2 _mm256_inserti128_si256::<1> _mm256_castsi128_si256 simd_utils::loadu_si128 simd_utils::loadu_si128 _mm256_shuffle_epi8 _mm256_add_epi32 _mm256_madd_epi16 _mm256_shuffle_epi8 _mm256_add_epi32 _mm256_madd_epi16 _mm256_inserti128_si256::<1> _mm256_castsi128_si256 simd_utils::loadu_si128 simd_utils::loadu_si128 _mm256_shuffle_epi8 _mm256_add_epi32 _mm256_madd_epi16 _mm256_shuffle_epi8 _mm256_add_epi32 _mm256_madd_epi16 chunks_exact remainder simd_utils::mm256_load_and_clone_i16x2 _mm256_inserti128_si256::<1> _mm256_castsi128_si256 simd_utils::loadl_epi64 simd_utils::loadl_epi64 _mm256_shuffle_epi8 _mm256_add_epi32 _mm256_madd_epi16 _mm256_inserti128_si256::<1> _mm256_castsi128_si256 simd_utils::loadl_epi64 simd_utils::loadl_epi64 _mm256_shuffle_epi8 _mm256_add_epi32 _mm256_madd_epi16 first _mm256_set1_epi32 _mm256_inserti128_si256::<1> _mm256_castsi128_si256 simd_utils::mm_cvtepu8_epi32 simd_utils::mm_cvtepu8_epi32 _mm256_add_epi32 _mm256_madd_epi16 _mm256_inserti128_si256::<1> _mm256_castsi128_si256 simd_utils::mm_cvtepu8_epi32 simd_utils::mm_cvtepu8_epi32 _mm256_add_epi32 _mm256_madd_epi16 _mm256_srai_epi32::<PRECISION> _mm256_srai_epi32::<PRECISION> _mm256_packs_epi32 _mm256_packs_epi32 _mm256_packus_epi16 _mm256_packus_epi16 _mm_cvtsi128_si32 _mm256_extracti128_si256::<0> _mm_cvtsi128_si32 _mm256_extracti128_si256::<1> _mm_cvtsi128_si32 _mm256_extracti128_si256::<0> _mm_cvtsi128_si32 _mm256_extracti128_si256::<1>" := by rfl
 
+/-! ### the AVX2 one-row kernel of the U8x4 horizontal pass
+
+    `horiz_convolution_one_row` of src/convolution/u8x4/avx2.rs, modelled with the two 128-bit halves of its 256-bit
+    accumulator as a pair (masks `sh1 .. sh6` by halves and `sh7`, re-extracted from the source): 8 and 4 coefficients per
+    step in the wide register - started at `1 << (PRECISION - 2)` per half and added at the end - then the 128-bit 2 / 1
+    steps; fewer than 8 coefficients never enter the wide part. -/
+
+/-- equal to the portable kernel for every coefficient list and every row, for precisions 2 .. 31 (precision 1 -
+    a largest normalised weight of 8192 or more, far outside the documented head-room - would make the kernel
+    evaluate `1 << (PRECISION - 2)` with a negative shift) -/
+theorem u8x4_avx2_one_row_eq_portable (p : Nat) (hp2 : 2 ≤ p) (hp : p < 32) (row : List Int) (start : Nat) (ks : List Int) :
+    Fir.SimdU8x4.pixelA p row start ks
+      = [clip8 (2 ^ (p - 1) + Fir.SimdU8x4.dotC row 0 ks start) p, clip8 (2 ^ (p - 1) + Fir.SimdU8x4.dotC row 1 ks start) p,
+         clip8 (2 ^ (p - 1) + Fir.SimdU8x4.dotC row 2 ks start) p, clip8 (2 ^ (p - 1) + Fir.SimdU8x4.dotC row 3 ks start) p] :=
+  Fir.Proofs.u8x4_avx2_pixel_eq_portable p hp2 hp row start ks
+
+/-- SSE4.1 and AVX2 store the same bytes (C02's statement, for this pass, as a theorem) -/
+theorem u8x4_one_row_avx2_eq_sse4 (p : Nat) (hp2 : 2 ≤ p) (hp : p < 32) (row : List Int) (start : Nat) (ks : List Int) :
+    Fir.SimdU8x4.pixelA p row start ks = Fir.SimdU8x4.pixel p row start ks := by
+  rw [u8x4_avx2_one_row_eq_portable p hp2 hp, u8x4_sse4_one_row_eq_portable p hp]
+
+theorem u8x4_avx2_one_row_source_as_modelled : Fir.Gen.u8x4_avx2_one_row_skeleton =
+    "_mm_set1_epi32(1 << (PRECISION - 1)) ; _mm256_set1_epi32(1 << (PRECISION - 2)) ; chunks_exact(8) ; remainder() ; simd_utils::loadu_si128(k, 0) ; _mm256_insertf128_si256::<1>(_mm256_castsi128_si256(tmp), tmp) ; simd_utils::loadu_si256(src_row, x) ; _mm256_shuffle_epi8(source, sh1) ; _mm256_shuffle_epi8(ksource, sh2) ; _mm256_add_epi32(sss256, _mm256_madd_epi16(pix, mmk)) ; _mm256_shuffle_epi8(source, sh3) ; _mm256_shuffle_epi8(ksource, sh4) ; _mm256_add_epi32(sss256, _mm256_madd_epi16(pix, mmk)) ; chunks_exact(4) ; remainder() ; simd_utils::loadl_epi64(k, 0) ; _mm256_insertf128_si256::<1>(_mm256_castsi128_si256(tmp), tmp) ; simd_utils::loadu_si128(src_row, x) ; _mm256_insertf128_si256::<1>(_mm256_castsi128_si256(tmp), tmp) ; _mm256_shuffle_epi8(source, sh5) ; _mm256_shuffle_epi8(ksource, sh6) ; _mm256_add_epi32(sss256, _mm256_madd_epi16(pix, mmk)) ; _mm_add_epi32(_mm256_extracti128_si256::<0>(sss256), _mm256_extracti128_si256::<1>(sss256),) ; chunks_exact(2) ; remainder() ; simd_utils::mm_load_and_clone_i16x2(k) ; simd_utils::loadl_epi64(src_row, x) ; _mm_shuffle_epi8(source, sh7) ; _mm_add_epi32(sss, _mm_madd_epi16(pix, mmk)) ; first() ; simd_utils::mm_cvtepu8_epi32(src_row, x) ; _mm_set1_epi32(k as i32) ; _mm_add_epi32(sss, _mm_madd_epi16(pix, mmk)) ; _mm_srai_epi32::<PRECISION>(sss) ; _mm_packs_epi32(sss, sss) ; _mm_cvtsi128_si32(_mm_packus_epi16(sss, sss))" := by rfl
+
 end Fir.C02
